@@ -121,6 +121,12 @@ func Render(s string) (ui.Text, error) {
 			if w == 0 {
 				return nil, fmt.Errorf("line %d: zero-width character is not allowed", i+1)
 			}
+			if len(style) < w {
+				// The two lines have the same width, but the style line
+				// itself contains multi-width characters.
+				return nil, fmt.Errorf(
+					"line %d: not enough style characters for %q", i+2, string(r))
+			}
 			if !same(style[:w]) {
 				return nil, fmt.Errorf(
 					"line %d: inconsistent style %q for multi-width character %q",
